@@ -593,6 +593,102 @@ fn check_merged(us: &[(u32, u32)], n: usize, ps: &[&Part], m: &CharPartition, wh
     None
 }
 
+
+/// expected merge computed on raw interval lists (for partitions that do not live on the compressed line): sweep
+/// over all interval end points, key of an elementary segment = its class in every partition
+fn expected_merge_raw(ps: &[&Vec<(u32, u32)>]) -> (Vec<(u32, u32)>, bool) {
+    let mut cuts: BTreeSet<u64> = BTreeSet::new();
+    cuts.insert(0);
+    cuts.insert(M as u64 + 1);
+    for p in ps {
+        for &(l, h) in p.iter() {
+            cuts.insert(l as u64);
+            cuts.insert(h as u64 + 1);
+        }
+    }
+    let cuts: Vec<u64> = cuts.into_iter().collect();
+    let class = |p: &Vec<(u32, u32)>, c: u32| -> Option<usize> {
+        let i = p.partition_point(|&(_, h)| h < c);
+        if i < p.len() && p[i].0 <= c {
+            Some(i)
+        } else {
+            None
+        }
+    };
+    let mut exp: Vec<(u32, u32)> = vec![];
+    let mut prev: Option<Vec<Option<usize>>> = None;
+    let mut comp_nonempty = false;
+    for w in cuts.windows(2) {
+        let (a, b) = (w[0] as u32, (w[1] - 1) as u32);
+        let key: Vec<Option<usize>> = ps.iter().map(|p| class(p, a)).collect();
+        if key.iter().all(|k| k.is_none()) {
+            comp_nonempty = true;
+            prev = None;
+            continue;
+        }
+        if prev.as_ref() == Some(&key) {
+            exp.last_mut().unwrap().1 = b;
+        } else {
+            exp.push((a, b));
+        }
+        prev = Some(key);
+    }
+    (exp, !comp_nonempty)
+}
+
+fn shifted_layout(len: usize, pat: u32, shift: u32) -> Vec<(u32, u32)> {
+    long_layout(len, pat).into_iter().map(|(l, h)| (l + shift, h + shift)).collect()
+}
+
+/// merge of long partitions (any size-dependent path of the sweep): every listed layout against every other, and
+/// folds of three
+fn c12_long(ls: &[(usize, u32, u32)]) -> Option<String> {
+    let raws: Vec<Vec<(u32, u32)>> = ls.iter().map(|&(len, pat, sh)| shifted_layout(len, pat, sh)).collect();
+    let r = guarded(|| {
+        let cps: Vec<CharPartition> = raws
+            .iter()
+            .map(|ivs| {
+                let mut cp = CharPartition::new();
+                for &(l, h) in ivs {
+                    cp.push(l, h);
+                }
+                cp
+            })
+            .collect();
+        let m = if cps.len() == 2 { merge_partitions(&cps[0], &cps[1]) } else { merge_partition_list(cps.iter()) };
+        let refs: Vec<&Vec<(u32, u32)>> = raws.iter().collect();
+        let (exp, comp_empty) = expected_merge_raw(&refs);
+        let got = intervals_of(&m);
+        if got != exp {
+            let k = got.iter().zip(exp.iter()).position(|(a, b)| a != b).unwrap_or(got.len().min(exp.len()));
+            return Some(format!("merge of long partitions {:?} (len, pattern, shift): {} intervals, expected {}; first difference at index {}: {:?} vs {:?}", ls, got.len(), exp.len(), k, got.get(k), exp.get(k)));
+        }
+        let w = m.pick_complement();
+        if m.empty_complement() != comp_empty || (!comp_empty && (w > M || raws.iter().any(|p| p.iter().any(|&(l, h)| l <= w && w <= h)))) {
+            return Some(format!("merge of long partitions {:?}: complement (empty={}, witness {}) wrong", ls, m.empty_complement(), w));
+        }
+        None
+    });
+    match r {
+        Ok(m) => m,
+        Err(e) => Some(format!("merge of long partitions {:?} {}", ls, e)),
+    }
+}
+
+fn c12_long_pool(tier: Tier) -> Vec<(usize, u32, u32)> {
+    let lens: Vec<usize> = if tier == Tier::Thorough { vec![9, 10, 15, 16, 17, 31, 32, 33, 63, 64, 65, 100, 129, 257] } else { vec![10, 16, 17, 33, 65, 100] };
+    let pats: Vec<u32> = if tier == Tier::Thorough { (0..64).step_by(3).collect() } else { vec![0, 3, 21, 42, 45, 63] };
+    let mut v = vec![];
+    for &l in &lens {
+        for &p in &pats {
+            for sh in [0u32, 1, 5] {
+                v.push((l, p, sh));
+            }
+        }
+    }
+    v
+}
+
 fn c12_pair(n: usize, p1: &Part, p2: &Part) -> Option<String> {
     let us = units(n);
     let r = guarded(|| {
@@ -629,6 +725,21 @@ fn c12_list(n: usize, ps: &[Part]) -> Option<String> {
             }
         }
         None
+    });
+    match r {
+        Ok(m) => m,
+        Err(e) => Some(format!("merge_partition_list {}", e)),
+    }
+}
+
+/// the list merged in the given order only (the enumeration supplies every order itself)
+fn c12_list_given(n: usize, ps: &[Part]) -> Option<String> {
+    let us = units(n);
+    let r = guarded(|| {
+        let cps: Vec<CharPartition> = ps.iter().map(|p| build_push(&us, p)).collect();
+        let refs: Vec<&Part> = ps.iter().collect();
+        let m = merge_partition_list(cps.iter());
+        check_merged(&us, n, &refs, &m, &format!("merge_partition_list of {:?}", ps.iter().map(|p| raw(&us, p)).collect::<Vec<_>>()))
     });
     match r {
         Ok(m) => m,
@@ -717,6 +828,64 @@ fn c12_run(ctx: &Ctx, batch: usize, nb: usize, rep: &mut Report) {
             }
         }
     }
+    // long partitions against each other (pairs) and folds of three
+    let pool = c12_long_pool(ctx.tier);
+    let mut k = 0usize;
+    for (i, a) in pool.iter().enumerate() {
+        k += 1;
+        if k % nb != batch {
+            continue;
+        }
+        beat();
+        for (j, b) in pool.iter().enumerate() {
+            rep.inc("evaluations");
+            rep.inc("long_pairs");
+            if let Some(m) = c12_long(&[*a, *b]) {
+                rep.violation("C12", "c12", json!({"kind": "long", "layouts": [[a.0, a.1, a.2], [b.0, b.1, b.2]]}), m);
+            }
+            if (i + j) % 7 == 0 {
+                let c = pool[(i * 5 + j * 3 + 1) % pool.len()];
+                rep.inc("evaluations");
+                rep.inc("long_lists");
+                if let Some(m) = c12_long(&[*a, *b, c]) {
+                    rep.violation("C12", "c12", json!({"kind": "long", "layouts": [[a.0, a.1, a.2], [b.0, b.1, b.2], [c.0, c.1, c.2]]}), m);
+                }
+            }
+        }
+    }
+    // lists of four (every order) and five partitions over a short line
+    let n3 = 3usize;
+    let small = enum_parts(n3);
+    let mut k = 0usize;
+    for a in &small {
+        for b in &small {
+            k += 1;
+            if k % nb != batch {
+                continue;
+            }
+            beat();
+            for c in &small {
+                for d in &small {
+                    rep.inc("evaluations");
+                    rep.inc("lists4");
+                    let l = vec![a.clone(), b.clone(), c.clone(), d.clone()];
+                    if let Some(m) = c12_list_given(n3, &l) {
+                        rep.violation("C12", "c12", json!({"kind": "list", "line": n3, "parts": l}), m);
+                    }
+                    if ctx.tier == Tier::Thorough {
+                        for e in &small {
+                            rep.inc("evaluations");
+                            rep.inc("lists5");
+                            let l = vec![a.clone(), b.clone(), c.clone(), d.clone(), e.clone()];
+                            if let Some(m) = c12_list_given(n3, &l) {
+                                rep.violation("C12", "c12", json!({"kind": "list", "line": n3, "parts": l}), m);
+                            }
+                        }
+                    }
+                }
+            }
+        }
+    }
     if batch == 0 {
         rep.inc("evaluations");
         if let Some(m) = c12_list(n, &[]) {
@@ -730,6 +899,10 @@ fn c12_replay(_ctx: &Ctx, c: &Value, rep: &mut Report) {
     rep.inc("evaluations");
     let m = match c["kind"].as_str().unwrap_or("") {
         "pair" => c12_pair(n, &parse_part(&c["p1"]), &parse_part(&c["p2"])),
+        "long" => {
+            let ls: Vec<(usize, u32, u32)> = c["layouts"].as_array().map(|a| a.iter().map(|t| (t[0].as_u64().unwrap_or(10) as usize, t[1].as_u64().unwrap_or(0) as u32, t[2].as_u64().unwrap_or(0) as u32)).collect()).unwrap_or_default();
+            c12_long(&ls)
+        }
         _ => {
             let ps: Vec<Part> = c["parts"].as_array().map(|a| a.iter().map(parse_part).collect()).unwrap_or_default();
             c12_list(n, &ps)
@@ -745,7 +918,7 @@ fn c12_meta(ctx: &Ctx) -> Meta {
     let np = enum_parts(n).len();
     Meta {
         level: "exploration",
-        rule: format!("all {} x {} ordered pairs of partitions over a compressed line of {} positions; expected result = the maximal runs of positions with equal (class in p1, class in p2) other than (complement, complement), complement = intersection of the complements with a witness inside it; merge with the empty partition on either side; every ordered pair also as a two-element list through merge_partition_list; lists of three partitions in all 6 orders and with an empty partition inserted at every place; run in the release and dev profiles; non-trivial = ordered pairs of two different non-empty partitions", np, np, n),
+        rule: format!("all {} x {} ordered pairs of partitions over a compressed line of {} positions; expected result = the maximal runs of positions with equal (class in p1, class in p2) other than (complement, complement), complement = intersection of the complements with a witness inside it; merge with the empty partition on either side; every ordered pair also as a two-element list through merge_partition_list; lists of three partitions in all 6 orders and with an empty partition inserted at every place; all lists of four (thorough: and five) partitions over a 3-position line; long partitions (9-257 intervals in several adjacency patterns and shifts) merged pairwise and in folds of three, expected result from a sweep over all end points; run in the release and dev profiles; non-trivial = ordered pairs of two different non-empty partitions", np, np, n),
         assumptions: vec!["'same class exactly when' is read for interval partitions: a class other than the complement is an interval, so the result must be the coarsest refinement whose classes are intervals (maximal runs), as the statement's third clause says".into()],
         exhaustive: true,
         space: format!("compressed line {:?}", units(n)),
